@@ -334,6 +334,14 @@ func c06Exec(x *Ctx) {
 					}
 					send(Encode(&Msg{Type: Tread, Tag: 6, Fid: 1, Offset: 0, Count: cnt}, p.Dotu))
 				}
+				if useUfs && x.S.OSRate > 0 && msize >= 256 {
+					// with a file system that misbehaves the listing is built a few times over: every rebuild meets
+					// failures of its own (an entry that cannot be looked at any more, a directory that cannot be read)
+					for k := 0; k < 3; k++ {
+						send(Encode(&Msg{Type: Tread, Tag: uint16(60 + k), Fid: 1, Offset: 0, Count: 200}, p.Dotu))
+					}
+					x.Probe("listing-rebuilt-under-os-errors")
+				}
 			}
 		}
 		eff := p.Msize
@@ -387,6 +395,34 @@ func c06Exec(x *Ctx) {
 				ask(&Msg{Type: Tread, Tag: 11, Fid: 10, Offset: xoff, Count: 4000})
 				ask(&Msg{Type: Tread, Tag: 12, Fid: 10, Offset: 0, Count: 4000})
 				x.Probe("directory-changed-under-a-listing-fid")
+				// and entries that vanish while listings of their directory are being built (symbolic links in
+				// between: describing one takes a system call, which is where another goroutine gets its turn)
+				ee := filepath.Join(u.Root, "ee")
+				os.MkdirAll(ee, 0o755)
+				for k := 0; k < 30; k++ {
+					if k%2 == 0 {
+						os.Symlink("x", filepath.Join(ee, fmt.Sprintf("l%02d", k)))
+					} else {
+						os.WriteFile(filepath.Join(ee, fmt.Sprintf("f%02d", k)), nil, 0o644)
+					}
+				}
+				ask(&Msg{Type: Twalk, Tag: 13, Fid: 0, Newfid: 12, Wname: []string{"ee"}})
+				ask(&Msg{Type: Topen, Tag: 14, Fid: 12, Mode: 0})
+				listed := false
+				rt.Go(rt.SiteSpawn, func() {
+					rt.SetName("remover")
+					for k := 1; k < 30 && !listed; k += 2 {
+						os.Remove(filepath.Join(ee, fmt.Sprintf("f%02d", k)))
+						for y := r.Intn(4); y >= 0; y-- {
+							rt.Yield(rt.SiteActor)
+						}
+					}
+				})
+				for k := 0; k < 8; k++ {
+					ask(&Msg{Type: Tread, Tag: uint16(20 + k), Fid: 12, Offset: 0, Count: 4000})
+				}
+				listed = true
+				x.Probe("entries-removed-while-listings-are-built")
 			case 4:
 				for k := 0; k < 40 && !p.EOF; k++ {
 					tg := uint16(200 + 2*k)
